@@ -198,6 +198,9 @@ def t3_case(case):
         cap = int(rng.integers(1, 4))
         g3 = spec.rand_tt(rng, rd, [1] * d, [1] + [min(cap, mr[j]) for j in range(1, d)] + [1], kind)
         e0 = err_A(g3)
+        ok0, r0 = c.guarded('post:ranks<=max_rank[threshold=0]', lambda: run(g3, 1, threshold=0, max_rank=cap))
+        if ok0:
+            c.add('post:ranks<=max_rank[threshold=0]', all(x <= cap for x in r0.ranks[1:-1]), '%s cap %d' % (r0.ranks, cap))
         ok, r1 = c.guarded('post:ranks<=max_rank', lambda: run(g3, 1, threshold=1e-12, max_rank=cap))
         if ok:
             c.wf(r1, 'post:wf(result)[max_rank]')
